@@ -217,3 +217,46 @@ PROPERTIES["C18"] = {
                "which Kani does not model; NULL/loopback framing; longer frames; truncated frames in the two-run harnesses",
     "assumptions": ["E1 tracing stub", "identity defined through the analyzer's decoder; a frame that is both a raw IP packet and an Ethernet frame is excluded from the raw skeletons"],
 }
+
+# ------------------------------------------------------------------------------------------ C08 / C11
+_steps = [("1", "4"), ("3", "1"), ("3", "5"), ("4", "1"), ("4", "8"), ("5", "1"), ("5", "8"), ("7", "3"), ("9", "8"), ("16", "16")]
+_q_steps = {("3", "5"), ("4", "1"), ("5", "8"), ("7", "3"), ("16", "16")}
+_c08 = []
+for b, d in _steps:
+    _c08.append(H(f"c08::c08_step_b{b}_d{d}", "quick" if (b, d) in _q_steps else "thorough",
+                  f"reader retaining {b} symbolic bytes (incomplete-record invariant) + one add_bytes of {d} symbolic bytes; all 65536 declared lengths, all record types, parser verdict symbolic",
+                  "incomplete: Ok(None), parser not entered, retained == delivered, retained < 5+declared <= 65540; completing: parser entered once with exactly the record, every position equal (symbolic probe)"))
+for d in ["1", "4", "5", "12", "32"]:
+    _c08.append(H(f"c08::c08_fresh_d{d}", "quick" if d in ("4", "12", "32") else "thorough",
+                  f"fresh reader + one add_bytes of {d} symbolic bytes", "same; bytes after the record are not handed to the parser"))
+PROPERTIES["C08"] = {
+    "harnesses": _c08,
+    "explanation": "Inductive step over the real TlsClientHelloReader::add_bytes by bounded model checking: from any reader state that an in-order "
+                   "sequence of incomplete segments can leave behind (B retained bytes, constructed with the verif hook), one more segment either "
+                   "leaves the record incomplete (no result, nothing lost, parser untouched) or completes it (parser entered exactly once with "
+                   "exactly the record bytes, retained ++ new, in order). By induction over the calls this gives segmentation invariance of what "
+                   "reaches the ClientHello parser, for every cut position; the parser itself (tls-parser) is replaced by a call recorder.",
+    "functions": ["tls_client_hello_reader::TlsClientHelloReader::{new, add_bytes, reset, buffer_len, verif_with_buffer}"],
+    "bounds": "retained prefix <= 16 bytes, new segment <= 16 (32 for a fresh reader) bytes; every 5-byte header value",
+    "outside": "tls_process::parse_tls_client_hello and everything behind it (tls-parser: stubbed by a recorder), hence 'identical result' only up to 'identical parser input'; "
+               "the content of the retained bytes after an *incomplete* step is not read back (only its length) - reading the buffer after the call exhausted memory; "
+               "packet level (process_tcp_packet: admission by is_tls_traffic, flow removal), exactly-once over a whole connection, worker variants",
+    "assumptions": ["E1 tracing stub", "E6 format stub", "parse_tls_client_hello stubbed: returns Ok(None) or Err (symbolic), never a signature"],
+}
+_c11 = [h for h in _c08 if "step" in h["name"]] + [
+    H("c11::c11_table_cli_1000", "quick", "4 timestamped client segments of one connection 1000 ms apart, all TSvals symbolic", "timestamp table holds exactly 1 entry after every segment"),
+    H("c11::c11_table_srv_1000", "quick", "same, server side", "1 entry"),
+    H("c11::c11_table_cli_10", "thorough", "same, 10 ms apart (every pair invalid -> marker path)", "1 entry"),
+    H("c11::c11_table_two_directions", "quick", "alternating client/server segments of one connection, TSvals symbolic", "exactly 2 entries"),
+]
+PROPERTIES["C11"] = {
+    "harnesses": _c11,
+    "explanation": "Bounded memory, for the two stateful objects in reach: (1) TLS reader - the inductive-step harnesses of C08 assert that an incomplete "
+                   "handshake record retains fewer than 5 + declared length <= 65540 bytes after any step, which bounds the reader for histories of any length; "
+                   "(2) TCP timestamp table - any 4 segments of one endpoint keep exactly one entry per (connection, direction).",
+    "functions": ["TlsClientHelloReader::add_bytes", "uptime::check_ts_tcp"],
+    "bounds": "reader: as C08; table: 4 segments per endpoint on the 4-slot model",
+    "outside": "the HTTP flow table (TcpFlow keeps every payload until a head parses and rebuilds the stream per packet - seen by reading, D9 - needs HttpProcessors/HashMap, not encodable), "
+               "work-per-packet bounds, a reader whose first byte is not 0x16 (reachable only through the reader API, not through process_tcp_packet), table capacity/eviction",
+    "assumptions": ["E1", "E3 ttl_cache model", "E6", "uptime kernels stubbed in the table harnesses"],
+}
